@@ -131,6 +131,11 @@ impl AnySock {
 
 pub fn to_msg(frames: &[Vec<u8>]) -> ZmqMessage {
     let v: Vec<Bytes> = frames.iter().map(|f| Bytes::from(f.clone())).collect();
+    if v.is_empty() {
+        // the message shape "no frames": the public API can build it (split_off, pop_front)
+        let mut m = ZmqMessage::from("x");
+        return m.split_off(1);
+    }
     ZmqMessage::try_from(v).expect("non-empty message")
 }
 pub fn from_msg(m: &ZmqMessage) -> Vec<Vec<u8>> {
